@@ -265,7 +265,11 @@ def check_c03(ctx, ana, case, judge=True):
             ctx.count('near_threshold')
         if k == 0 or ana.dt[k] is None:
             continue
-        dt = ana.dt[k]
+        # "between two consecutive instants dt apart": the step is the distance of the two *recorded* instants (equal to the
+        # run's time step on the uniform grid; a run whose duration is not a multiple of its step is judged on what it recorded)
+        dt = tr.time[k] - tr.time[k - 1]
+        if abs(dt - ana.dt[k]) > 1e-9 * max(abs(tr.time[k]), ana.dt[k]):
+            ctx.count('steps_differing_from_run_dt')
         w_adv = w[k - 1] + a[k - 1] * dt
         fl = 1e-9 * max(abs(w[k - 1]), abs(a[k - 1] * dt))
         clamped_ok = (True in st) and w[k] == 0
